@@ -40,7 +40,7 @@ LossyDtype == \E c \in DCols : t.dtype[c] = "ok" /\ c \notin t.dropped /\
                 \E k \in (IF c = "alter" THEN {"int_frac", "int_frac_small", "object"} ELSE IF c = "kind" THEN {"bool_two", "bool_frac", "object"} ELSE {"object"}) :
                    t' = [t EXCEPT !.dtype[c] = k] /\ Log("LossyDtype", <<c, k>>, TRUE)
 LosslessDtype == \E c \in DCols : t.dtype[c] = "ok" /\ c \notin t.dropped /\
-                \E k \in (IF c = "alter" THEN {"int_as_float"} ELSE IF c = "kind" THEN {"bool_as_int01", "bool_as_float01"} ELSE {"float_as_int"}) :
+                \E k \in (IF c = "alter" THEN {"int_as_float"} ELSE IF c = "kind" THEN {"bool_as_int01", "bool_as_float01"} ELSE {"float_as_int", "float_as_float32"}) :
                    t' = [t EXCEPT !.dtype[c] = k] /\ Log("LosslessDtype", <<c, k>>, FALSE)
 G == Faults < MaxFaults            \* guard of every fault action (top-level disjuncts so that TLC reports coverage per fault class)
 B == Len(hist) - Faults < 1 /\ Len(hist) < MaxFaults + 1
